@@ -79,7 +79,9 @@ func longLived(c *engine.Ctx) {
 						fsb.Options.Path = dirs[at]
 					case "store":
 						d := docVariant(o.Doc, o.ID)
-						r := guard(func() (*sbom.Document, error) { return nil, fsb.Store(d, &storage.StoreOptions{NoClobber: o.NoClobber}) })
+						r := guard(func() (*sbom.Document, error) {
+							return nil, fsb.Store(d, &storage.StoreOptions{NoClobber: o.NoClobber})
+						})
 						t.Transitions(1)
 						t.Validated(1)
 						if r.Exit || r.Panic != "" {
